@@ -1,10 +1,10 @@
 #!/bin/bash
-# usage: regress_seeded.sh <workers>   — runs every seeded change against its property's quick check in <workers>
+# usage: regress_seeded.sh <workers> [ids…]  — runs every seeded change against its property's quick check in <workers>
 # private workspaces (/tmp/reg_<k>: clone of /verif + detached worktree of /repo), then copies the verdicts back
 # into /verif/seeded/*/meta.json. /repo and /verif themselves are not touched while it runs.
 set -u
 N=${1:-4}
-ids=($(ls /verif/seeded))
+if [ $# -gt 1 ]; then shift; ids=("$@"); else ids=($(ls /verif/seeded)); fi
 for k in $(seq 0 $((N-1))); do
   d=/tmp/reg_$k
   rm -rf $d; mkdir -p $d
@@ -21,6 +21,7 @@ for k in $(seq 0 $((N-1))); do
   d=/tmp/reg_$k
   for i in $(cat $d/mine.txt); do cp $d/verif/seeded/$i/meta.json /verif/seeded/$i/meta.json; done
   grep -h "caught\|missed\|NOT APPLY" $d/log.txt
+  mkdir -p /tmp/reg_logs; cp $d/log.txt /tmp/reg_logs/log_$k.txt
   git -C /repo worktree remove --force $d/repo
   rm -rf $d
 done
